@@ -134,7 +134,15 @@ class AstToSqlAlchemyOrmVisitor(common._CommonVisitors, visitor.NodeVisitor):
             if isinstance(prop_inspect, RelationshipProperty):
                 foreign_key = prop_inspect._calculated_foreign_keys
                 if len(foreign_key) == 1:
-                    return next(iter(foreign_key))
+                    column = next(iter(foreign_key))
+                    parent = elem.parent
+                    if parent.is_aliased_class:
+                        # The relationship hangs off an aliased entity: the
+                        # foreign key is that of the same entity, not of the
+                        # plain table.
+                        key = parent.mapper.get_property_by_column(column).key
+                        return getattr(parent.entity, key)
+                    return column
         except Exception:
             pass
 
